@@ -293,6 +293,13 @@ def auto_discharge(mir, site_fn, b, bb, t):
         x = o
         while x is not None and x[0] == "cast":
             x = x[4]
+        if x is not None and x[0] == "arg" and isinstance(x[1], int) and "{closure" not in site_fn:
+            # the capacity is a parameter of a helper with one call site: what that call site passes
+            sites = _callsites(mir, site_fn)
+            if len(sites) == 1 and x[1] - 1 < len(sites[0][2]["args"]):
+                x = sites[0][0].origin(sites[0][2]["args"][x[1] - 1])
+                while x is not None and x[0] == "cast":
+                    x = x[4]
         if x is not None and x[0] == "call" and re.search(r"::len$", x[1] or ""):
             return "capacity is the length of data already in memory (%s)" % x[1]
         if x is not None and x[0] == "const":
